@@ -565,6 +565,12 @@ class CommandSuite(Suite):
         probe = case.get("probe")
         popen_cls = RecordingPopen if probe else FakePopen
         self._acc.subprocess = RealSubprocess if probe else FakeSubprocess
+        # JADE running inside a JADE job (a job whose command submits jobs) or in a shell that still exports the two
+        # variables: the job must get ITS name and output directory, not the inherited ones.  Every other case.
+        ambient = case.get("ambient", (len(case["name"]) + int(case["batch"])) % 2 == 0)
+        if ambient:
+            os.environ["JADE_JOB_NAME"] = "outer_job_7"
+            os.environ["JADE_RUNTIME_OUTPUT"] = "/outer/output"
         try:
             runner = JobRunner(cfg, str(out), batch_id=case["batch"])
             jobs = runner._generate_jobs("config.json", False)
@@ -589,6 +595,8 @@ class CommandSuite(Suite):
             self._acc.subprocess = FakeSubprocess
             os.environ.pop("SLURM_JOB_ID", None)
             os.environ.pop("SLURM_NODEID", None)
+            os.environ.pop("JADE_JOB_NAME", None)
+            os.environ.pop("JADE_RUNTIME_OUTPUT", None)
 
     def _probe_check(self, case, p, out, root):
         """what the operating system did with argv / env / exit status / stdio, against what Popen was given"""
